@@ -1037,6 +1037,17 @@ def mk_call(fn, args=(), kwargs=()):
                 return x
         if fn == 'int':
             fn = 'trunc'
+    if fn == 'floor' and len(args) == 1 and not kwargs:
+        # integer ceiling division:  (n + b - 1) // b  ==  ceil(n / b)   for an integer n and a positive integer b
+        # (floor(q + 1 - 1/b) with q*b an integer: q = k + j/b, 0 <= j < b, and the floor is k + (1 if j else 0))
+        x = args[0]
+        if x.p.get((), F(0)) == 1:
+            for m, c in x.p.items():
+                if c == -1 and len(m) == 1 and m[0][1] == -1 and _atom_pos(m[0][0]) and is_integer(Term({((m[0][0], F(1)),): F(1)})):
+                    b = Term({((m[0][0], F(1)),): F(1)})
+                    q = x - Term.num(1) + Term({m: F(1)})
+                    if is_integer(q * b):
+                        return mk_call('ceil', [q])
     if fn in ODD and len(args) == 1 and not kwargs and leading_sign(args[0]) < 0:
         return -mk_call(fn, [-args[0]])
     if fn in ('floor', 'ceil') and len(args) == 1 and not kwargs and leading_sign(args[0]) < 0:
